@@ -48,6 +48,15 @@ class Task:
     label: str = ''
     cost: int = 1        # scheduling hint, larger first
 
+    @property
+    def wider_word(self):
+        """lemma instances at a word size other than the default 16 bit also serve C18 (same behaviour at wider words)"""
+        return dict(self.kwargs).get('w', 2) != 2 and 'C01' in self.props
+
+    @property
+    def effective_props(self):
+        return tuple(self.props) + (('C18',) if self.wider_word else ())
+
     def run(self):
         t0 = time.time()
         try:
@@ -57,6 +66,8 @@ class Task:
             for r in out:
                 if not r.props:
                     r.props = tuple(self.props)
+                if self.wider_word and 'C01' in r.props and 'C18' not in r.props:
+                    r.props = tuple(r.props) + ('C18',)
             if not out:
                 out = [Result(f'{self.label or self.func}/vacuous', ERROR, 'driver', time.time() - t0, tuple(self.props),
                               {'message': 'task produced zero obligations (vacuity guard)'})]
